@@ -139,6 +139,7 @@ structure Piece where
   bodyBytes : Nat     -- payload bytes this piece adds to the stream
   eof : Bool          -- the message is complete after this piece
   interim : Bool := false   -- the last complete message in this piece is a 1xx interim response (not 101)
+  redirect : Bool := false  -- the head completed by this piece is a followed 3xx redirect with an empty body
 deriving Repr, DecidableEq
 
 inductive Ev where
@@ -183,6 +184,10 @@ structure St where
   rpaused : Bool := false
   queued : List Piece := []
   respReleased : Bool := false      -- the response no longer owns a connection
+  redir : Bool := false             -- the response being awaited turned out to be a redirect that will be followed
+  hop : Nat := 0                    -- number of redirects followed so far
+  oldPooled : Nat := 0              -- connections of earlier hops handed back to the pool
+  attOff : Nat := 0                 -- connect attempts made on earlier hops (scripted attempts are numbered globally)
   reqSent : Bool := false           -- `start_timeout()` was called: the request is sent completely, we wait for the peer
   wait100 : Bool := false           -- the writer task waits for `100 Continue` before writing the body
   tls : Bool := false               -- the current connect attempt is in its TLS handshake
@@ -327,7 +332,7 @@ def attemptConn (cfg : Cfg) (s : St) : St :=
 /-- placeholder acquired; `_create_connection` up to its first suspension -/
 def createConn (cfg : Cfg) (s : St) : St :=
   let s := { s with slot := .placeholder }
-  if !cfg.useDns then attemptConn cfg { s with addrsLeft := 1, attempt := 0 }
+  if !cfg.useDns || decide (s.hop > 0) then attemptConn cfg { s with addrsLeft := 1, attempt := 0 }
   else if s.cached then attemptConn cfg { s with addrsLeft := cfg.naddr, attempt := 0 }
   else match s.lookup with
     | .running _ => { s with dnsWaitR := true, pc := .dnsWaiter, wake := none }
@@ -422,6 +427,31 @@ def throwAt (cfg : Cfg) (s : St) (e : Exc) : St :=
   | .think => finish (releaseConn cfg s) e.outcome   -- `async with` exit: release()
   | _ => s
 
+/-- entering `ceil_timeout(connect)` for the connection of a further hop (`BaseConnector.connect`) -/
+def armConn (cfg : Cfg) (s : St) : St :=
+  match cfg.connect with
+    | some d => if d = 0 then { s with connCtx := .entered, connBase := s.cancelling }
+                else { s with connCtx := .entered, connT := some (ctxDeadline cfg.thr s.now d, s.seq), seq := s.seq + 1,
+                              connBase := s.cancelling }
+    | none => { s with connCtx := .entered, connBase := s.cancelling }
+
+/-- `ClientSession._request`, redirect branch: the 3xx response is complete, `resp.release()` hands its
+connection back to the pool, and the loop goes round: a new `_connect_and_send_request` to another host —
+inside the SAME `with timer` and with the SAME total handle (it is cancelled only when the final
+response's connection is released); `connect` / `sock_connect` start afresh for the new connection. -/
+def resetHop (s : St) : St :=
+  { s with pc := .idle, slot := .none, tr := .none, pooled := false, oldPooled := s.oldPooled + 1,
+                         headDone := false, eof := false, buffered := 0, respReleased := false, hdrAt := none,
+                         readT := none, reqSent := false, wait100 := false, redir := false, wake := none,
+                         wr := if s.wr = .parked then .cancelled else s.wr,
+                         dnsWaitR := false, poolQ := s.poolQ.filter (· ≠ Who.R),
+                         hop := s.hop + 1, attOff := s.attOff + s.attempt + 1 }
+
+def redirectStep (cfg : Cfg) (s : St) : St :=
+  let s := armConn cfg (releaseWaiter cfg (resetHop s))
+  if !slotFree cfg s then { s with pc := .poolWait, poolQ := s.poolQ ++ [.R], wake := none }
+  else createConn cfg s
+
 /-- resume the task of R if something is pending (a requested cancellation wins) -/
 def resumeR (cfg : Cfg) (s : St) : St :=
   if s.pc.isDone ∨ s.pc = .idle then s
@@ -442,6 +472,7 @@ def resumeR (cfg : Cfg) (s : St) : St :=
       -- again for the handshake — still inside `ceil_timeout(sock_connect)`
       if cfg.https ∧ !s.tls then { s with tls := true } else afterConnect cfg { s with tls := false }
     | .headers =>
+      if s.redir then redirectStep cfg s else
       match afterHeaders cfg s with
       | (s, none) => s
       | (s, some e) => throwAt cfg { s with pc := .body } e
@@ -469,7 +500,7 @@ def interimStep (cfg : Cfg) (s : St) : St :=
     else reschedRead cfg { s with wait100 := false, wr := .finished, reqSent := true }
   else s
 
-def deliver (cfg : Cfg) (s : St) (p : Piece) : St :=
+def deliverCore (cfg : Cfg) (s : St) (p : Piece) : St :=
   if s.tr ≠ .open then s
   else if s.rpaused then { s with queued := s.queued ++ [p] }
   else
@@ -486,6 +517,11 @@ def deliver (cfg : Cfg) (s : St) (p : Piece) : St :=
       -- `_response_eof` is registered once `start` has returned
       let s := if p.eof ∧ s.hdrAt.isSome then releaseConn cfg s else s
       if s.pc = .body ∧ s.wake = none ∧ (p.bodyBytes > 0 ∨ p.eof) then { s with wake := some .result } else s
+
+/-- `deliverCore`, plus: remember that the head just completed is a redirect that will be followed -/
+def deliver (cfg : Cfg) (s : St) (p : Piece) : St :=
+  let s' := deliverCore cfg s p
+  if s.tr = .open ∧ !s.rpaused ∧ !s.headDone ∧ p.headDone ∧ p.redirect then { s' with redir := true } else s'
 
 /-- bytes that arrived while the transport was paused are delivered after `resume_reading` -/
 def flushQueued (cfg : Cfg) : Nat → St → St
@@ -535,9 +571,9 @@ def applyEv (cfg : Cfg) (s : St) : Ev → St
       let s := if s.cpc = .dnsOwner ∨ s.cpc = .dnsWaiter then { s with cpc := .ok } else s
       if (s.pc = .dnsOwner ∨ s.pc = .dnsWaiter) ∧ s.wake = none then { s with wake := some .result } else s
   | .connDone i =>
-    if s.pc = .connecting ∧ s.attempt = i ∧ !s.tls ∧ s.wake = none then { s with wake := some .result } else s
+    if s.pc = .connecting ∧ s.attempt + s.attOff = i ∧ !s.tls ∧ s.wake = none then { s with wake := some .result } else s
   | .tlsDone i =>
-    if s.pc = .connecting ∧ s.attempt = i ∧ s.tls ∧ s.wake = none then { s with wake := some .result } else s
+    if s.pc = .connecting ∧ s.attempt + s.attOff = i ∧ s.tls ∧ s.wake = none then { s with wake := some .result } else s
   | .writeResume =>
     if s.wr = .parked ∧ !s.wait100 ∧ s.tr = .open then reschedRead cfg { s with wr := .finished, reqSent := true } else s
   | .bytes p => deliver cfg s p
